@@ -147,6 +147,13 @@ func isControlSym(s string) bool {
 // smtSliced renders the obligation with only the lines in the cone of influence of the goal.
 // withFacts=false keeps definitions only.
 func (o *Obligation) smtSliced(withFacts bool) string {
+	return o.smtSlicedDepth(withFacts, 0)
+}
+
+// smtSlicedDepth: factDepth > 0 limits the facts to those within that many steps of the goal's
+// definitional cone (a fact is one step away when it mentions a symbol of the cone; its other
+// symbols, closed under definitions, are the next cone). 0 = fixpoint.
+func (o *Obligation) smtSlicedDepth(withFacts bool, factDepth int) string {
 	vc := o.vc
 	si := vc.sliceIdx()
 	si.once.Do(func() { si.build(vc) })
@@ -177,6 +184,44 @@ func (o *Obligation) smtSliced(withFacts bool) string {
 		}
 		return false
 	}
+	if withFacts && factDepth > 0 {
+		defClose := func() {
+			for ch := true; ch; {
+				ch = false
+				for i := o.Prefix - 1; i >= 0; i-- {
+					if !inc[i] && si.defSym[i] != "" && rel[si.defSym[i]] {
+						inc[i] = true
+						addAll(si.tok[i])
+						ch = true
+					}
+				}
+			}
+		}
+		defClose()
+		for d := 0; d < factDepth; d++ {
+			var pick []int
+			var hpick []int
+			for i := 0; i < o.Prefix; i++ {
+				if !inc[i] && si.defSym[i] == "" && touches(si.tok[i]) {
+					pick = append(pick, i)
+				}
+			}
+			for i, ts := range si.hdrTok {
+				if !hinc[i] && !si.hdrDecl[i] && touches(ts) {
+					hpick = append(hpick, i)
+				}
+			}
+			for _, i := range pick {
+				inc[i] = true
+				addAll(si.tok[i])
+			}
+			for _, i := range hpick {
+				hinc[i] = true
+				addAll(si.hdrTok[i])
+			}
+			defClose()
+		}
+	} else {
 	for pass := 0; pass < 6; pass++ {
 		changed := false
 		for i := o.Prefix - 1; i >= 0; i-- {
@@ -214,6 +259,7 @@ func (o *Obligation) smtSliced(withFacts bool) string {
 		if !changed {
 			break
 		}
+	}
 	}
 	var sb strings.Builder
 	sb.WriteString("(set-logic ALL)\n")
